@@ -14,7 +14,8 @@ def tables(K, wide=False):
     return [
         dict(name="users", size=[0, K], fields=[f("id", t_int((0, 5)), "PrimaryKey"), f("age", t_float((0.0, 100.0))), f("city", t_int((1, 1), (2, 2), (3, 3)))]),
         dict(name="orders", size=[0, K], fields=[f("id", t_int((0, 9)), "PrimaryKey"), f("user_id", t_int((0, 5))), f("amount", amount), f("kind", t_int((1, 1), (2, 2))), f("qty", t_opt(t_int((0, 7)))), f("bal", t_float((-100.0, 10.0))),
-                                                  f("tag", t_opt(t_int((0, 9))), "Unique")]),
+                                                  f("tag", t_opt(t_int((0, 9))), "Unique"), f("frac", t_float((0.0, 0.25))), f("flag", t_int((0, 0), (1, 1))),
+                                                  f("wgt", t_float((1.0, 3.0)))]),
         dict(name="items", size=[0, K], fields=[f("id", t_int((0, 20)), "PrimaryKey"), f("order_id", t_int((0, 9))), f("price", t_float((0.0, 20.0)))]),
         dict(name="pub", size=[0, K], fields=[f("k", t_int((1, 1), (2, 2), (3, 3))), f("label", t_float((0.0, 1.0)))]),
     ]
@@ -29,6 +30,8 @@ def pu_defs():
         "chain": dict(tables=chain, hash=False),
         "chain-hashed": dict(tables=chain, hash=True),
         "own-column": dict(tables=own, hash=False),
+        # row-level weights: the unit of an order is its user_id, its weight the column wgt (users is then not protected)
+        "own-weighted": dict(tables=[dict(table="orders", path=[], field="user_id", weight="wgt")], hash=False),
     }
 
 
@@ -97,8 +100,8 @@ def py_owner(pu, dbm):
 
 # ------------------------------------------------------------------------------------------------ program generator
 
-NUM = {"orders": ["amount", "bal", "qty"], "users": ["age"], "items": ["price"]}
-PUBKEY = {"orders": ["kind"], "users": ["city"], "items": []}
+NUM = {"orders": ["amount", "bal", "qty", "frac"], "users": ["age"], "items": ["price"]}
+PUBKEY = {"orders": ["kind", "flag"], "users": ["city"], "items": []}
 
 
 def random_dp_program(rnd, grouped=None, joins=True, aligned_only=False):
@@ -133,10 +136,11 @@ def random_dp_program(rnd, grouped=None, joins=True, aligned_only=False):
         grouped = rnd.random() < 0.4
     gb = ""
     if grouped and keys:
-        k = rnd.choice(keys)
-        items.append("%s AS g" % k[0])
-        kc.append("g")
-        gb = " GROUP BY %s" % k[0]
+        ks = rnd.sample(keys, 2 if (len(keys) > 1 and rnd.random() < 0.4) else 1)
+        for j, k in enumerate(ks):
+            items.append("%s AS g%d" % (k[0], j))
+            kc.append("g%d" % j)
+        gb = " GROUP BY " + ", ".join(k[0] for k in ks)
     for i in range(rnd.choice([1, 1, 2, 3])):
         c = rnd.choice(cols)
         f = rnd.choice(["sum", "sum", "count", "avg", "sum(DISTINCT", "count(DISTINCT"])
